@@ -542,6 +542,23 @@ def do_extract(u, spec, subs, tline):
                 fn_counts['T4'] = fn_counts.get('T4', 0) + n
                 u.rewrites.append({'fn': ' :: '.join(path), 'file': relpath, 'kind': 'T4', 'what': 'split_or_guard: %d match arm(s) `C(A | B) if G` duplicated per alternative' % n})
                 continue
+            if args[0] == 'guard_to_if':
+                text, note = t4mod.guard_to_if(text, int(args[1]))
+                fn_counts['T4'] = fn_counts.get('T4', 0) + 1
+                u.rewrites.append({'fn': ' :: '.join(path), 'file': relpath, 'kind': 'T4', 'what': note})
+                continue
+            if args[0] == 'for_rev':
+                text, note = t4mod.for_rev(text, int(args[1]))
+                fn_counts['T4'] = fn_counts.get('T4', 0) + 1
+                u.rewrites.append({'fn': ' :: '.join(path), 'file': relpath, 'kind': 'T4', 'what': note})
+                continue
+            if args[0] == 'let_closure_contract':
+                # t4 let_closure_contract <name> <label> <spec...>
+                rest = d.split(None, 4)[4]
+                text, note = t4mod.let_closure_contract(text, args[1], args[2], rest)
+                fn_counts['T4'] = fn_counts.get('T4', 0) + 1
+                u.rewrites.append({'fn': ' :: '.join(path), 'file': relpath, 'kind': 'T4', 'what': note})
+                continue
             if args[0] in ('for_slice', 'for_refs'):
                 # t4 for_slice <k> [adapter]   (elements bound by reference) / t4 for_refs <k> [adapter] (by value)
                 text, note = t4mod.for_indexed(text, int(args[1]), args[0] == 'for_slice', args[2] if len(args) > 2 else None)
